@@ -7,7 +7,10 @@ import (
 
 // World is the minimal stand-in run.go (shared verbatim with simL) needs: the
 // deterministic event log of a run.
-type World struct{ Log []string }
+type World struct {
+	Log       []string
+	blocksFed int
+}
 
 // Close does nothing (the chain lives and dies inside the synctest bubble).
 func (w *World) Close() {}
